@@ -56,6 +56,7 @@ INVARIANT ImplStatus
 INVARIANT ImplOutputs
 INVARIANT ImplFaithful
 INVARIANT ImplCompared
+INVARIANT ImplSolver
 INVARIANT WorkflowPreconditions
 INVARIANT OutputsComputed
 INVARIANT CommandDefaults
@@ -500,7 +501,7 @@ class Cmp:
             return False
         if a.size == 0:
             return True
-        lim = tol + 1e-13 * np.abs(b)
+        lim = np.asarray(tol, dtype=float) + 1e-13 * np.abs(b)
         diff = np.abs(a - b)
         if not np.all(np.isfinite(diff)):
             self.bad.append("%s: non-finite values" % label)
@@ -509,9 +510,21 @@ class Cmp:
         k = label.split(":", 1)[-1]
         self.maxerr[k] = max(self.maxerr.get(k, 0.0), float(np.max(diff / np.maximum(lim, 1e-300))))
         if np.any(diff > lim):
-            self.bad.append("%s: max deviation %.3e > %.1e" % (label, err, tol))
+            self.bad.append("%s: max deviation %.3e > %.1e" % (label, err, float(np.min(lim))))
             return False
         return True
+
+    def freq(self, label, a, b, dec):
+        """Frequencies at the printed precision, plus the conditioning of nu = sqrt(lambda): a relative
+        perturbation eps = 1e-12 of the dynamical matrix (three orders above what re-reading BORN /
+        FORCE_SETS produces, far below any change of an input) moves nu by eps nu_max^2 / (2 |nu|) -
+        relevant only for the (numerically zero) acoustic modes at Gamma."""
+        if dec is None:
+            self.bad.append("%s: values not found in the file" % label)
+            return False
+        b = np.asarray(b, dtype=float)
+        cond = 1e-12 * float(np.max(np.abs(b))) ** 2 / (2 * np.maximum(np.abs(b), 1e-5))
+        return self.close(label, a, b, 0.6 * 10.0 ** (-dec) + cond)
 
     def printed(self, label, a, b, dec):
         """equality at the printed precision: `dec` decimals"""
@@ -641,7 +654,7 @@ def compare_outputs(setup, rp, res, written, cmp, outdir):
             cmp.close(f + ":mesh", y["mesh"], res["mesh_numbers"], 0)
             P(f + ":qpoints", [p["q-position"] for p in y["phonon"]], m["qpoints"], C.decimals(t, "q-position"))
             cmp.close(f + ":weights", [p["weight"] for p in y["phonon"]], m["weights"], 0)
-            P(f + ":frequencies", _bands(y["phonon"]), m["frequencies"], C.decimals(t, "frequency"))
+            cmp.freq(f + ":frequencies", _bands(y["phonon"]), m["frequencies"], C.decimals(t, "frequency"))
             if st.is_eigenvectors:
                 cmp_eigenvectors(cmp, f + ":eigenvectors", _evecs(y["phonon"]), m["frequencies"], m["eigenvectors"],
                                  C.decimals(t, "eigenvector"))
@@ -652,7 +665,7 @@ def compare_outputs(setup, rp, res, written, cmp, outdir):
             cmp.checked.add(f)
             h = C.read_hdf5(path(f))
             m = res["mesh"]
-            cmp.close(f + ":frequencies", h["frequency"], m["frequencies"], 1e-12)
+            cmp.freq(f + ":frequencies", h["frequency"], m["frequencies"], 12)
             cmp.close(f + ":qpoints", h["qpoint"], m["qpoints"], 1e-14)
             cmp.close(f + ":weights", h["weight"], m["weights"], 0)
         elif f == "band.yaml" and "band" in res:
@@ -660,7 +673,8 @@ def compare_outputs(setup, rp, res, written, cmp, outdir):
             y = C.load_yaml(path(f))
             t = _text(path(f))
             b = res["band"]
-            P(f + ":frequencies", _bands(y["phonon"]), np.concatenate(b["frequencies"]), C.decimals(t, "frequency"))
+            cmp.freq(f + ":frequencies", _bands(y["phonon"]), np.concatenate(b["frequencies"]),
+                     C.decimals(t, "frequency"))
             P(f + ":qpoints", [p["q-position"] for p in y["phonon"]], np.concatenate(b["qpoints"]),
               C.decimals(t, "q-position"))
             P(f + ":distances", [p["distance"] for p in y["phonon"]], np.concatenate(b["distances"]),
@@ -682,13 +696,13 @@ def compare_outputs(setup, rp, res, written, cmp, outdir):
         elif f == "band.hdf5" and "band" in res:
             cmp.checked.add(f)
             h = C.read_hdf5(path(f))
-            cmp.close(f + ":frequencies", h["frequency"], np.array(res["band"]["frequencies"]), 1e-12)
+            cmp.freq(f + ":frequencies", h["frequency"], np.array(res["band"]["frequencies"]), 12)
         elif f == "qpoints.yaml" and "qpoints" in res:
             cmp.checked.add(f)
             y = C.load_yaml(path(f))
             t = _text(path(f))
             q = res["qpoints"]
-            P(f + ":frequencies", _bands(y["phonon"]), q["frequencies"], C.decimals(t, "frequency"))
+            cmp.freq(f + ":frequencies", _bands(y["phonon"]), q["frequencies"], C.decimals(t, "frequency"))
             if st.write_dynamical_matrices:
                 dm = np.array([np.array(p["dynamical_matrix"]) for p in y["phonon"]])
                 dmc = dm[:, :, 0::2] + 1j * dm[:, :, 1::2]
@@ -705,7 +719,7 @@ def compare_outputs(setup, rp, res, written, cmp, outdir):
         elif f == "qpoints.hdf5" and "qpoints" in res:
             cmp.checked.add(f)
             h = C.read_hdf5(path(f))
-            cmp.close(f + ":frequencies", h["frequency"], res["qpoints"]["frequencies"], 1e-12)
+            cmp.freq(f + ":frequencies", h["frequency"], res["qpoints"]["frequencies"], 12)
         elif f == "thermal_properties.yaml" and "tprop" in res:
             cmp.checked.add(f)
             y = C.load_yaml(path(f))
@@ -949,6 +963,10 @@ def workflow_cases(su, full):
         else:
             add("readfc-hdf5-auto", cmd, ["--mesh"] + M)
         add("rm-fc-hdf5", cmd, None, before=lambda su: os.remove(os.path.join(su.dir, "force_constants.hdf5")))
+        for i, sel in enumerate([["--fc-calc", "symfc"], ["--fc-calc", "alm"], ["--alm"], ["--fc-calc", "Traditional"]] +
+                                ([["--symfc"], ["--fc-symmetry", "--fc-calc", "symfc"]] if cmd == "phonopy"
+                                 else [["--no-fc-symmetry", "--fc-calc", "symfc"]])):
+            add("solver-%d" % i, cmd, sel + ["--qpoints", "0.1 0.2 0.3"])
         add("fc-symmetry", cmd, (["--fc-symmetry"] if cmd == "phonopy" else L) + ["--qpoints", "0.1 0.2 0.3"])
         add("no-fc-symmetry", cmd, ([] if cmd == "phonopy" else ["--no-fc-symmetry"]) + ["--qpoints", "0.1 0.2 0.3"])
         add("spg-writefc", cmd, base + ["--fc-spg-symmetry", "--writefc", "--cutoff-radius", "3.9"])
@@ -1042,9 +1060,13 @@ def run_setup(ctx, su, full, events, expected_jobs):
         if cs.after is not None and r["code"] == 0:
             cs.after(su, st)
         status = "ok" if r["code"] == 0 and not r["exc"] else "fail"  # an uncaught exception is a failure too
+        from phonopy.cui.phonopy_script import _get_fc_calculator_params
+
+        solver = _get_fc_calculator_params(st, load_phonopy_yaml=(cs.cmd == "load"))[0]
         job = dict(id=cid, cmd=cs.cmd, argv=argv, inp=inp, s=s, st=st, confs=confs, yaml_file=yaml_file,
                    indir=indir, outdir=outdir, written=written, status=status, exc=r["exc"],
-                   stdout_tail=r["stdout"][-1500:], setup=su, fsz=bool(st.create_force_sets_zero))
+                   stdout_tail=r["stdout"][-1500:], setup=su, fsz=bool(st.create_force_sets_zero),
+                   solver=solver or "none")
         expected_jobs.append(job)
         su.cases_run += 1
         ctx.count(cid)
@@ -1126,7 +1148,7 @@ def workflow_level(ctx):
                 kk = k.split(":", 1)[-1] if ":" in k else k
                 margins[kk] = max(margins.get(kk, 0.0), v)
             obs = dict(status=j["status"], out=abstract_outputs(j["written"]), bad=set(_short(b) for b in cmp.bad),
-                       checked=set(cmp.checked))
+                       checked=set(cmp.checked), solver=j["solver"])
             j["bad"] = cmp.bad
             j["expected"] = e
             events.append(dict(id=j["id"], cmd=j["cmd"], inp=set(j["inp"]), s=j["s"], obs=obs))
